@@ -23,7 +23,7 @@ SetSeq(s) == IF s = {} THEN <<>> ELSE LET RECURSIVE F(_) F(t) == IF t = {} THEN 
 MCfgV == [node |-> NodeCfg, peerOrder |-> PeerOrder, peers |-> PeerCfg, appOrder |-> AppOrder,
           apps |-> [a \in Apps |-> [id |-> AppCfg[a].id, auth |-> AppCfg[a].auth, acct |-> AppCfg[a].acct,
                                     peers |-> SelectSeq(PeerOrder, LAMBDA p : p \in AppCfg[a].peers),
-                                    realms |-> SetSeq(AppCfg[a].realms), kind |-> AppCfg[a].kind, handler |-> AppCfg[a].handler]]]
+                                    realms |-> SetSeq(AppCfg[a].realms), kind |-> AppCfg[a].kind, handler |-> AppCfg[a].handler, max |-> AppCfg[a].max]]]
 C06 == INSTANCE Mon_C06 WITH MCfg <- MCfgV
 C07 == INSTANCE Mon_C07 WITH MCfg <- MCfgV
 C11 == INSTANCE Mon_C11 WITH MCfg <- MCfgV
@@ -35,13 +35,14 @@ C17 == INSTANCE Mon_C17 WITH MCfg <- MCfgV
 C10 == INSTANCE Mon_C10 WITH MCfg <- MCfgV
 C19 == INSTANCE Mon_C19 WITH MCfg <- MCfgV
 C18 == INSTANCE Mon_C18 WITH MCfg <- MCfgV
+C14 == INSTANCE Mon_C14 WITH MCfg <- MCfgV
 
 MonInit == [c06 |-> C06!Init, c07 |-> C07!Init, c11 |-> C11!Init, c12 |-> C12!Init, c13 |-> C13!Init,
-            c08 |-> C08!Init, c09 |-> C09!Init, c17 |-> C17!Init, c10 |-> C10!Init, c19 |-> C19!Init, c18 |-> C18!Init]
+            c08 |-> C08!Init, c09 |-> C09!Init, c17 |-> C17!Init, c10 |-> C10!Init, c19 |-> C19!Init, c18 |-> C18!Init, c14 |-> C14!Init]
 MonStep(Mo, st) == [c06 |-> C06!Step(Mo.c06, st), c07 |-> C07!Step(Mo.c07, st), c11 |-> C11!Step(Mo.c11, st),
                     c12 |-> C12!Step(Mo.c12, st), c13 |-> C13!Step(Mo.c13, st),
                     c08 |-> C08!Step(Mo.c08, st), c09 |-> C09!Step(Mo.c09, st), c17 |-> C17!Step(Mo.c17, st),
-                    c10 |-> C10!Step(Mo.c10, st), c19 |-> C19!Step(Mo.c19, st), c18 |-> C18!Step(Mo.c18, st)]
+                    c10 |-> C10!Step(Mo.c10, st), c19 |-> C19!Step(Mo.c19, st), c18 |-> C18!Step(Mo.c18, st), c14 |-> C14!Step(Mo.c14, st)]
 
 \* ---------------------------------------------------------------- message alphabet
 Hosts == Peers \cup {"x.r9"}
@@ -101,6 +102,7 @@ Acts ==
      THEN UNION {{[a |-> "feed", c |-> c, ms |-> <<m1, m2>>] : m1 \in {x \in Msgs(c) : x.cmd = "DW" /\ x.req}, m2 \in {x \in Msgs(c) : x.cmd = "DP" /\ ~x.req}}
                  : c \in {x \in ConnIds : Whole(x) /\ S.conn[x].st = "DISCONNECTING"}} ELSE {}) \cup
   (IF Faults THEN UNION {{[a |-> "peer_close", c |-> c], [a |-> "peer_reset", c |-> c]} : c \in {x \in ConnIds : Usable(x)}} ELSE {}) \cup
+  (IF "senderr" \in Alpha THEN {[a |-> "send_error", c |-> c] : c \in {x \in ConnIds : Usable(x) /\ ~S.conn[x].sendErr}} ELSE {}) \cup
   (IF "garbage" \in Alpha THEN {[a |-> "garbage", c |-> c] : c \in {x \in ConnIds : Whole(x)}} ELSE {}) \cup
   \* a watchdog request delivered in two network reads (first half, then the rest)
   (IF "frag" \in Alpha
@@ -164,6 +166,12 @@ Inv17 == S.overflow \/ Sigs(M.c17.viol) \subseteq Known
 Inv10 == S.overflow \/ Sigs(M.c10.viol) \subseteq Known
 Inv19 == S.overflow \/ Sigs(M.c19.viol) \subseteq Known
 Inv18 == S.overflow \/ Sigs(M.c18.viol) \subseteq Known
+Inv14 == S.overflow \/ Sigs(M.c14.viol) \subseteq Known
+\* C14 on the model's own state: the application's consumer threads are alive, and once nothing is in flight
+\* every thread slot has been given back
+TIdle(a) == S.tapp[a].recvQ = <<>> /\ S.tapp[a].respQ = <<>> /\ S.tapp[a].recv.st = "get" /\ \A i \in 1..Len(S.tapp[a].procs) : S.tapp[a].procs[i].st = "done"
+Serviceable == S.overflow \/ S.stop.phase # "none" \/ \A a \in TApps : /\ S.tapp[a].recv.alive /\ S.tapp[a].resp.alive
+                                                 /\ (TIdle(a) => S.tapp[a].slots = 0)
 \* the atomic step always reaches quiescence within the bound of Quiesce
 Quiescent == ~AnyEnabled(S)
 NoOverflow == ~S.overflow
